@@ -646,11 +646,14 @@ impl PlutusList {
         self.elems.contains(elem)
     }
 
+    // A datum is identified by the bytes it is written with: a datum decoded from its canonical
+    // encoding and the same datum built through the constructors are one element of the set,
+    // while two encodings of one value (two different hashes) stay two elements.
     pub(crate) fn deduplicated_view(&self) -> Vec<&PlutusData> {
         let mut dedup = BTreeSet::new();
         let mut datas = Vec::new();
         for elem in &self.elems {
-            if dedup.insert(elem) {
+            if dedup.insert(elem.to_bytes()) {
                 datas.push(elem);
             }
         }
@@ -667,7 +670,7 @@ impl PlutusList {
         let mut dedup = BTreeSet::new();
         let mut elems = Vec::new();
         for elem in &self.elems {
-            if dedup.insert(elem) {
+            if dedup.insert(elem.to_bytes()) {
                 elems.push(elem.clone());
             }
         }
